@@ -751,8 +751,12 @@ class Sample:
                         phase[pos + p] = "_" if p else op
 
         if self._indel_sites_eqs:  # long-read hack
+            # [reads spanning the site without the indel, reads with it]
+            carried = {
+                self._indel_sites_eqs[m] for m in indels if m in self._indel_sites_eqs
+            }
             for pos, op in self._indel_sites:
-                if ref_start <= pos < start:
+                if ref_start <= pos < start and (pos, op) not in carried:
                     self._indel_sites[pos, op][0] += 1
         read_pos = (ref_start, start, len(seq))
         return read_pos, dump_arr
